@@ -8,6 +8,7 @@ import NPModel.Refine.Samples
 import NPModel.Refine.PackSorted
 import NPModel.Refine.JoinRows
 import NPModel.Refine.ViewTrips
+import NPModel.Refine.ViewTrips2
 namespace NP.C02
 open NP
 variable {α : Type}
@@ -168,6 +169,51 @@ theorem element_view_round_trip (s : NSeries α) (hw : s.col.WF = true)
     ∃ s', packSeq s.index s.col.ty (NArr.iter s.col) = .ok s' ∧ s'.index = s.index ∧ s'.col.ty = s.col.ty ∧
       s'.col.rows = s.col.rows :=
   iter_packSeq s hw hne hv hn
+
+/-- **The list view round trip along the physical path** — `pack_lists(series.nest.to_lists())` as the
+    code runs it: `to_lists` hands out, per field, the child list arrays of the chunks as they are (raw
+    windows into the old buffers, the same chunking for every field); `pack_lists` finds equal chunk
+    lengths, builds one struct per chunk position from those very arrays and validates.  On `Clean`
+    storage (any chunking, offsets, buffers; field names need not be distinct) this succeeds, keeps the
+    index and the declared fields, and chunk by chunk every present row comes back unchanged and every
+    missing row as a table of empty lists. -/
+theorem list_view_round_trip_physical (s : NSeries α) (h : s.col.Clean) (hne : s.col.chunks ≠ []) :
+    ∃ s', s.relist = .ok s' ∧ s'.index = s.index ∧ s'.col.ty = s.col.ty ∧
+      s'.col.rows = s.col.chunks.flatMap fun ch => ch.rows.map fun r => some (r.getD (emptyTable ch)) :=
+  packLists_fieldChunks_rows s.index s.col h hne
+
+/-- `pack_lists` on list columns that do NOT share their chunking (any number of columns, any chunkings,
+    `n` lists each, equal list lengths row by row): the columns are combined, and the result is ONE chunk
+    whose field `f` is the canonical re-encoding of column `f`'s lists, every row present — the same rows
+    as for equally chunked columns, so the chunking of the list columns is not observable. -/
+theorem pack_lists_combines_other_chunkings (idx : List Label) (f0 : String) (fr : List String) (T : String → String)
+    (C : String → List (PList α)) (n : Nat)
+    (hdiff : (fr.map fun f => (C f).map PList.len).all (· == (C f0).map PList.len) = false)
+    (hlen : ∀ f ∈ f0 :: fr, ((C f).flatMap PList.rows).length = n)
+    (hal : ∀ f ∈ f0 :: fr, ((C f).flatMap PList.rows).map len0 = ((C f0).flatMap PList.rows).map len0) :
+    packLists idx ((f0 :: fr).map fun f => (f, T f, C f)) true =
+      .ok { index := idx,
+            col := { ty := (f0 :: fr).map fun f => (f, T f),
+                     chunks := [{ valid := List.replicate n true,
+                                  kids := (f0 :: fr).map fun f => { name := f, ty := T f, list := PList.ofRows ((C f).flatMap PList.rows) } }] } } :=
+  packLists_other_chunking idx f0 fr T C n hdiff hlen hal
+
+/-- **the list view round trip is stable**: what it returns is `Clean` storage again, and doing it a
+    second time changes nothing (not a cell, not a list array). -/
+theorem list_view_round_trip_is_stable (s : NSeries α) (h : s.col.Clean) (hne : s.col.chunks ≠ []) :
+    ∃ s', s.relist = .ok s' ∧ s'.col.Clean ∧ s'.relist = .ok s' := by
+  obtain ⟨s', h1, h2⟩ := relist_relist s h hne
+  refine ⟨s', h1, ?_, h2⟩
+  have := packLists_fieldChunks s.index s.col h hne
+  unfold NSeries.relist at h1
+  rw [this] at h1
+  cases h1
+  exact allValid_clean s.col h
+
+/-- the physical list view round trip copies nothing: the re-packed column holds, chunk for chunk, the SAME list arrays. -/
+theorem list_view_round_trip_shares_the_lists (s : NSeries α) (h : s.col.Clean) (hne : s.col.chunks ≠ []) :
+    s.relist = .ok ⟨s.index, ⟨s.col.ty, s.col.chunks.map PStruct.allValid⟩⟩ :=
+  packLists_fieldChunks s.index s.col h hne
 
 /-- non-vacuity: the three-chunk sample column (one chunk a slice into a larger buffer, one empty,
     a missing row, a null child list) meets the hypotheses of all four theorems -/
